@@ -23,7 +23,7 @@ RESULT_KEYS = ["final_strategies", "reachability_strategies", "rewards", "probab
 
 
 def alphabet():
-    """name -> game: 4 solvable, 2 unsolvable when pruned, 2 malformed; 'x' and 'x_no_prune' collide on purpose"""
+    """name -> game: 5 solvable, 2 unsolvable when pruned, 2 malformed; 'x' and 'x_no_prune' collide on purpose"""
     fig55 = CR.read_dict_from_file(os.path.join(REPO, "inputs", "example_games.py"))["game_5_5"]
     g = {k: copy.deepcopy(fig55[k]) for k in ("rewards", "players", "transition_list", "final_states")}
     # P1 prefers a; the P2 state 2 is then referenced by nobody, gets emptied and reports an empty final strategy;
@@ -49,7 +49,14 @@ def alphabet():
     # solvable, with a Player-1 state all of whose moves are dead (pruning empties it) below a probabilistic branch
     d = dict(rewards=[1, 1, 0, 0], players=[PR, P1, PR, PR],
              transition_list=[[(0.5, 1), (0.5, 3)], [("l", 2), ("r", 2)], [(1, 2)], [(1, 3)]], final_states=[3])
-    return [("g", g), ("x", x), ("game_a", game_a), ("d_p1", d), ("x_no_prune", u1), ("g_1", u2), ("m_1", m1), ("b2", m2)]
+    # no dead and no unreferenced state, but a probabilistic self-loop whose value stops at 0.999999: Player 1 then keeps only
+    # the action worth exactly 1, so pruned and unpruned runs differ although "nothing can be pruned" (KF-C04-1 at work)
+    lp = dict(rewards=[0, 2, 1, 0], players=[P1, PR, PR, PR],
+              transition_list=[[("a", 3), ("ab", 1)], [(1, 2)], [(0.5, 2), (0.5, 3)], [(1, 3)]], final_states=[3])
+    # descriptions may legally carry their own 'prune_states' entry (run_games itself leaves one behind in every game it has run)
+    u2["prune_states"] = False
+    d["prune_states"] = True
+    return [("g", g), ("x", x), ("game_a", game_a), ("d_p1", d), ("lp", lp), ("x_no_prune", u1), ("g_1", u2), ("m_1", m1), ("b2", m2)]
 
 
 def count_transitions(game):
@@ -59,7 +66,9 @@ def count_transitions(game):
 def solo(game, prune):
     """('ok', tuple) | ('err', message) | ('crash', text) - solving a pristine deep copy of this game alone"""
     def fn():
-        return tad.StochasticGame(prune_states=prune, **copy.deepcopy(game)).solve()
+        g = copy.deepcopy(game)
+        g.pop("prune_states", None)              # the mode of an entry is the batch runner's, not the description's
+        return tad.StochasticGame(prune_states=prune, **g).solve()
     st, val = budget.run_budgeted(fn, cpu_s=20.0, max_lines=50_000_000)
     if st == "ok":
         return ("ok", val)
